@@ -1028,6 +1028,9 @@ func main() {
 		var next []shardState
 		for i, res := range results {
 			s := pendingShards[i]
+			if os.Getenv("VERIF_C11_DEBUG") != "" {
+				fmt.Fprintf(os.Stderr, "child %s exit=%d wall=%v\n", res.Spec.Label, res.Exit, res.Wall)
+			}
 			lc, ok := absorb(r, res)
 			if ok || res.TimedOut {
 				continue
